@@ -15,11 +15,11 @@ pub struct Ctx {
     pub insts: u64, // instantiate messages generated so far (bounded: classic addresses are pre-bound)
 }
 
-const USERS: &[&str] = &["u1", "u2", "u3"];
-const DENOMS: &[&str] = &["d1", "d2"];
-const KEYS: &[&str] = &["6b", "6b01", "00", "-", "ff", "0004626e6b", "000462616e6b000862616c616e636573", "00047761736d"];
+pub const USERS: &[&str] = &["u1", "u2", "u3"];
+pub const DENOMS: &[&str] = &["d1", "d2"];
+pub const KEYS: &[&str] = &["6b", "6b01", "00", "-", "ff", "0004626e6b", "000462616e6b000862616c616e636573", "00047761736d"];
 
-fn coins(rng: &mut Rng, allow_bad: bool) -> String {
+pub fn coins(rng: &mut Rng, allow_bad: bool) -> String {
     let r = rng.below(100);
     if r < 55 {
         "-".into()
@@ -39,7 +39,7 @@ fn coins(rng: &mut Rng, allow_bad: bool) -> String {
     }
 }
 
-fn some_addr(rng: &mut Rng, ctx: &Ctx) -> String {
+pub fn some_addr(rng: &mut Rng, ctx: &Ctx) -> String {
     let r = rng.below(100);
     if r < 55 && !ctx.contracts.is_empty() {
         rng.pick(&ctx.contracts)
@@ -52,7 +52,7 @@ fn some_addr(rng: &mut Rng, ctx: &Ctx) -> String {
     }
 }
 
-fn contract(rng: &mut Rng, ctx: &Ctx) -> String {
+pub fn contract(rng: &mut Rng, ctx: &Ctx) -> String {
     let r = rng.below(100);
     if r < 92 && !ctx.contracts.is_empty() {
         rng.pick(&ctx.contracts)
@@ -208,7 +208,7 @@ pub fn gen_script(rng: &mut Rng, ctx: &mut Ctx, depth: u32, is_reply: bool) -> S
     format!("({})", acts.join(" "))
 }
 
-fn binds(app: &App, ops: &mut Vec<String>, codes: u64, insts: u64, salts: bool) {
+pub fn binds(app: &App, ops: &mut Vec<String>, codes: u64, insts: u64, salts: bool) {
     for u in ["u1", "u2", "u3", "n1", "creator"] {
         ops.push(format!("bind {} {}", u, app.api().addr_make(u)));
     }
@@ -243,14 +243,14 @@ fn binds(app: &App, ops: &mut Vec<String>, codes: u64, insts: u64, salts: bool) 
     }
 }
 
-fn observe(ops: &mut Vec<String>) {
+pub fn observe(ops: &mut Vec<String>) {
     ops.push("trace".into());
     ops.push("dump".into());
     ops.push("rawhash".into());
 }
 
 /// common setup: codes A,B(,C); balances; three contracts c1_0, c2_1, c1_2
-fn setup(rng: &mut Rng, ops: &mut Vec<String>, ctx: &mut Ctx, salts: bool) {
+pub fn setup(rng: &mut Rng, ops: &mut Vec<String>, ctx: &mut Ctx, salts: bool) {
     let app = App::default();
     ctx.codes = rng.range(2, 3);
     binds(&app, ops, ctx.codes, 16, salts);
